@@ -87,16 +87,18 @@ def Seg.wf (s : Seg) : Prop := 1 ≤ s.sc ∧ s.sc ≤ s.ec + 1
 
 def spxTotal (q : List Seg) : Nat := (q.map (·.x)).sum
 
-/-- `Spx::consume(rem)`: `none` = the `assert!` in the `Less` arm fails, or the queue runs out
-    (`unreachable!()`). Returns the end column and the remaining queue. -/
+/-- `Spx::consume(rem)`: `none` = the queue runs out (`unreachable!()`). In the `Less` arm the split
+    is kept within the element's range (`min`), so there is no assertion any more (repaired in /repo:
+    the pinned tree asserted `ec - sc + 1 = x ∨ rem = 0` here). Returns the end column and the
+    remaining queue. -/
 def spxConsume : List Seg → Nat → Option (Nat × List Seg)
   | [], _ => none
   | s :: q, rem =>
     if s.x < rem then spxConsume q (rem - s.x)
     else if rem = s.x then some (s.ec, q)
-    else if s.ec - s.sc + 1 = s.x ∨ rem = 0 then
-      some (s.sc + rem - 1, { s with sc := s.sc + rem, x := s.x - rem } :: q)
-    else none
+    else
+      let split := min (s.sc + rem) (s.ec + 1)
+      some (split - 1, { s with sc := split, x := s.x - rem } :: q)
 
 /-- Successive calls, as `process_email_autolinks` and `process_tasklist` make them. -/
 def spxConsumeAll : List Seg → List Nat → Option (List Nat × List Seg)
